@@ -529,7 +529,7 @@ class PrepTrace:
             w.t_report = w.clock.now
         self.events.append({"ev": ev[0], "h": ev[1], "k": ev[2], "st": st})
 
-    def run(self, script, rnd, max_events=600):
+    def run(self, script, rnd, max_events=400):
         """script: [(action, h, k)...] of a TLC behaviour (may be empty); steps that cannot be followed are skipped. Then a seeded
         random policy and finally a deterministic sweep take the preparation phase to quiescence; if the benchmark was started,
         the load phase runs to its end as ONE event (Race). Returns (#followed, #skipped)."""
